@@ -60,7 +60,7 @@ inductive Exc where
   | brokenPool         -- `BrokenProcessPool` ("failed to un-serialize")
   | shutdownExecutor   -- `ShutdownExecutorError`
   | taskError          -- the exception raised by the task itself, sent back in a `_ResultItem`
-deriving DecidableEq, Repr, Inhabited
+deriving DecidableEq, Repr, Inhabited, Hashable
 
 /-- `Future._state` (+ its payload). -/
 inductive Fut where
@@ -68,7 +68,7 @@ inductive Fut where
   | running
   | result (v : Nat)
   | exception (e : Exc)
-deriving DecidableEq, Repr, Inhabited
+deriving DecidableEq, Repr, Inhabited, Hashable
 
 def Fut.unresolved : Fut → Bool
   | .pending => true
@@ -78,13 +78,13 @@ def Fut.unresolved : Fut → Bool
 structure FutRec where
   arg : Nat
   st : Fut
-deriving DecidableEq, Repr, Inhabited
+deriving DecidableEq, Repr, Inhabited, Hashable
 
 /-- `_CallItem(work_id, fn, args, kwargs)`. -/
 structure CallItem where
   wid : Nat
   arg : Nat
-deriving DecidableEq, Repr, Inhabited
+deriving DecidableEq, Repr, Inhabited, Hashable
 
 /-- What a complete message in the result pipe can be. -/
 inductive Msg where
@@ -93,7 +93,7 @@ inductive Msg where
   | pid (p : Nat)          -- a worker announcing its clean exit
   | remoteTb               -- `_RemoteTraceback`: `call_queue.get()` raised in a worker
   | unpicklable            -- a complete message whose `recv()` raises in the parent
-deriving DecidableEq, Repr, Inhabited
+deriving DecidableEq, Repr, Inhabited, Hashable
 
 structure Worker where
   pid : Nat
@@ -101,17 +101,17 @@ structure Worker where
   current : Option CallItem
   sending : Bool
   exiting : Bool
-deriving DecidableEq, Repr, Inhabited
+deriving DecidableEq, Repr, Inhabited, Hashable
 
 structure Flags where
   shutdown : Bool
   broken : Option Exc
   kill_workers : Bool
-deriving DecidableEq, Repr, Inhabited
+deriving DecidableEq, Repr, Inhabited, Hashable
 
 inductive Mgr where
   | notStarted | running | exited | crashed
-deriving DecidableEq, Repr, Inhabited
+deriving DecidableEq, Repr, Inhabited, Hashable
 
 structure State where
   max_workers : Nat
@@ -128,7 +128,7 @@ structure State where
   wakeups : Nat
   flags : Flags
   mgr : Mgr
-deriving DecidableEq, Repr, Inhabited
+deriving DecidableEq, Repr, Inhabited, Hashable
 
 /-- `ProcessPoolExecutor.__init__` (+ `_ReusablePoolExecutor._setup_queues`: the queue size is an input). -/
 def State.init (max_workers queue_size first_pid : Nat) : State :=
@@ -467,7 +467,7 @@ structure Pool where
   execs : List State
   /-- the module global `_executor` -/
   current : Option Nat
-deriving DecidableEq, Repr, Inhabited
+deriving DecidableEq, Repr, Inhabited, Hashable
 
 def Pool.empty : Pool := ⟨[], none⟩
 
@@ -529,7 +529,7 @@ def poolRun (fn : Nat → Nat) (pr : Pool × List Nat) (ops : List PoolOp) : Poo
 /-- `LokyBackend` as far as C10 needs it. -/
 structure Backend where
   workers : Option Nat     -- `self._workers`
-deriving DecidableEq, Repr, Inhabited
+deriving DecidableEq, Repr, Inhabited, Hashable
 
 /-- `LokyBackend.configure` (`get_memmapping_executor(n_jobs, …)`: same kwargs every time → `reuse = true`). -/
 def configure (p : Pool) (n_jobs queue_size : Nat) : Pool × Backend :=
